@@ -83,6 +83,53 @@ pub fn add_loop(m: &mut MWorkflow, rng: &mut vsim::rng::Rng) {
 }
 
 
+/// the multi-step cancel history, played on purpose (models without generator acts)
+pub fn cancel_family(sc: &mut Scenario, r: &mut Rng) {
+    // one family plays the multi-step history on purpose: the first interrupts are completed, every interrupt
+    // that opens afterwards cancels the act the client completed last, and many steps begin with an act that its own
+    // condition skips (or that the client closes by skip / submit / remove) - the cancel walks over tasks that
+    // are already closed
+    let has_generators = { let mut g = false; sc.models[0].visit_acts(&mut |a| g |= matches!(a.kind, ActKind::Block { .. } | ActKind::Parallel { .. } | ActKind::Sequence { .. })); g };
+    if !has_generators {
+        fn skip_first(steps: &mut [MStep], r: &mut vsim::rng::Rng) {
+            for s in steps.iter_mut() {
+                if s.acts.len() >= 2 && r.below(2) == 0 {
+                    s.acts[0].cond = Some(Cond::Cmp(Expr::Var("b".into()), ">".into(), Expr::Var("b".into())));
+                }
+                for b in s.branches.iter_mut() {
+                    skip_first(&mut b.steps, r);
+                }
+            }
+        }
+        skip_first(&mut sc.models[0].steps, r);
+        let mut keys: Vec<(u32, String)> = sc.client.reactions.keys().filter_map(|k| k.trim_start_matches(|c: char| !c.is_ascii_digit()).parse::<u32>().ok().map(|n| (n, k.clone()))).collect();
+        keys.sort();
+        if keys.len() >= 2 {
+            let i = 1 + r.below(keys.len() as u64 - 1) as usize;
+            let closing = r.pick(&["skip", "submit", "remove", "cancel_prev"]).to_string();
+            for (j, (_, k)) in keys.iter().enumerate() {
+                if let Some(list) = sc.client.reactions.get_mut(k) {
+                    // every declared output is supplied: the actions of this family are meant to be accepted
+                    let mut opts = serde_json::Map::new();
+                    sc.models[0].visit_acts(&mut |a| {
+                        if &a.key == k {
+                            for o in &a.outputs {
+                                opts.insert(o.clone(), json!(1));
+                            }
+                        }
+                    });
+                    let action = if j < i { "complete".to_string() } else if j == i { closing.clone() } else { "cancel_prev".to_string() };
+                    list[0] = Reaction { action, options: opts.clone(), repeat: 0 };
+                    if list.len() > 1 {
+                        list[1] = Reaction { action: "complete".into(), options: opts, repeat: 0 };
+                    }
+                }
+            }
+            sc.adversary = None;
+        }
+    }
+}
+
 pub fn gen_lifecycle(rng: &mut Rng, o: &LifeOpts) -> Scenario {
     let mut cfg = GenCfg::control();
     cfg.p_branches = *rng.pick(&[300, 500, 700]);
